@@ -150,8 +150,31 @@ func runC02(c *Ctx) {
 				bad = "the scan over the bucket can stop before its end (early exit): entries after an unreadable or non-matching one are never returned"
 			}
 		}
-		_ = s
-		c.Check(bad == "", "C02.R1", shortFn(probe)+": the whole bucket is scanned", probe.Pos(), "complete range, no early exit", bad)
+		// ... and every index of the bucket is retrieved: the retrieval sits in the loop body
+		// unconditionally (a skipped index is a rule that is never answered with)
+		if rhr := c.P.Method("filterlist", "RuleStorage", "RetrieveHostRule"); rhr != nil && bad == "" {
+			u := g.U
+			found := false
+			for _, ef := range s.Effects {
+				if ef.Kind != "call" || ef.Call.Aux != calleeName(rhr) {
+					continue
+				}
+				found = true
+				l, la := loopAround(s, ef.Act, ef.Ins)
+				if l == nil {
+					bad = "UNDECIDED: the retrieval is not inside the bucket scan"
+					continue
+				}
+				body := u.bdd.And(la.RC[l.Header], contCond(u, la, l))
+				if ef.Cond != body {
+					bad = "an index of the bucket can be skipped without being retrieved (the retrieval is reached only when " + clip(u.ShowBool(u.bdd.Restrict(ef.Cond, body)), 120) + "): the rule stored there is never part of an answer"
+				}
+			}
+			if !found {
+				bad = "UNDECIDED: no retrieval of the stored host rules"
+			}
+		}
+		c.Check(bad == "", "C02.R1", shortFn(probe)+": the whole bucket is scanned", probe.Pos(), "complete range, no early exit, every index retrieved", bad)
 	}
 	// ---------- R9: which network rules the DNS engine loads ----------
 	{
